@@ -1071,6 +1071,9 @@ def _ref_rule(name, tok, ts, idx):
         if not tuple_param and len(ts) > 2:
             return ('err', 'self')
         if arg == ANY or arg == EMPTY:
+            for i, p in enumerate(params):            # the components are unknown, but a filter parameter is a set in any case
+                if p[0] != 'b':                       # as on the typed path: a parameter of unknown type is not accepted either
+                    return ('err', i)
             return ('ok', EMPTY)
         if arg[0] != 'b' or arg[1][0] != 't' or any(not (1 <= i <= len(arg[1][1])) for i in idx):
             return ('err', len(ts) - 1)
@@ -1138,6 +1141,8 @@ def typing_rules(db, rule, tier='quick'):
                 i = it.eval(fn, S[n['args'][1]], env)
                 if not (0 <= i < len(ts)):
                     raise OutOfFragment('child %s of %d' % (i, len(ts)))
+                if ts[i] == 'FAILS':
+                    return None                      # the child is ill-typed: its own visit failed (and logged)
                 v = T(ts[i])
                 this['currentType'] = v
                 return v
@@ -1239,6 +1244,21 @@ def typing_rules(db, rule, tier='quick'):
                         break
                 if bad:
                     break
+            # an ill-typed operand makes the construct ill-typed, whatever the other operands are (in particular when one of them is the
+            # empty set / any-type, for which several rules return early)
+            if not bad:
+                others = [EMPTY, ANY, ('b', ('t', (('e', 'X1'), ('e', 'X2')))), ('b', ('e', 'X1'))]
+                for tok in toks[:1]:
+                    for n_ops in arities:
+                        for j in range(n_ops):
+                            for rest in itertools.product(others, repeat=n_ops - 1):
+                                ts = list(rest[:j]) + ['FAILS'] + list(rest[j:])
+                                for idx in idxs[:2]:
+                                    cases += 1
+                                    ok, cur, log = run(f, tok, ts, idx)
+                                    if ok and not bad:
+                                        bad = '%s(%s)%s is accepted with type %s although operand %d has no type: the operand is never visited on this path, so nothing it contains (an undeclared name, x∈x) is checked' % (
+                                            tok, ', '.join('<ill-typed>' if t == 'FAILS' else _show_t(t) for t in ts), (' indices %s' % idx) if idx else '', show(cur), j)
         except OutOfFragment as e:
             if str(e).startswith(('tuple component', 'unchecked', 'std::get on the wrong alternative')):
                 rule.violation(name, '%s:%d' % (f.file, f.line), 'the rule faults instead of rejecting: %s (an exception or invalid access escapes the type check)' % e)
